@@ -434,6 +434,9 @@ func (s *multiSim) exec(st *multiStep) {
 		}
 		s.views = append(s.views, hv)
 		s.readView(hv, st)
+		if s.prop == "C09" {
+			s.queryAt(st)
+		}
 	case "read":
 		for _, hv := range s.views {
 			if hv.id == st.View {
@@ -527,6 +530,10 @@ func (s *multiSim) gen(r *core.Rand) *multiStep {
 	}
 	switch r.Weighted(w) {
 	case 0:
+		if s.prop == "C05" && r.Chance(0.06) {
+			// a value that spells out the pre-image of a leaf for some other key
+			return &multiStep{Op: "set", S: r.Intn(len(s.keys)), K: core.Hex(genKey(r, 2)), V: core.Hex(carrierValue(genKey(r, 2)))}
+		}
 		return &multiStep{Op: "set", S: r.Intn(len(s.keys)), K: core.Hex(genKey(r, 2)), V: genVal(r, s.stepNo, 3)}
 	case 1:
 		st := &multiStep{Op: "del", S: r.Intn(len(s.keys))}
